@@ -10,14 +10,20 @@ FNODE = "pysmt.fnode.FNode"
 FM = "pysmt.formula.FormulaManager"
 
 EXPLANATION = (
-    "Static analysis: no function of the formula core (FNode, FormulaManager, the DAG walkers and "
-    "their handlers, type checker, oracles, rewriters, DAG printer, parser term reader) calls itself "
-    "- directly or through a cycle of the resolved call graph - on a child/sub-term, except the "
-    "justified cycles (quantifier nesting, sort nesting, list halving) (R1); DagWalker computes each "
-    "node once: the handler call is guarded by a memo miss on the node's key and its result stored "
-    "under that key, and already-memoised children are not pushed (R2); handlers do not re-enter the "
-    "traversal of the same walker on a sub-term (R3); the construction-time type check uses the "
-    "environment's memoised type checker (R4).")
+    "No function of the formula core (FNode, FormulaManager, the DAG walkers and their handlers, type checker, "
+    "oracles, rewriters, DAG printer, parser term reader) calls itself on a child / sub-term, except the justified "
+    "cycles (quantifier nesting, sort nesting, list halving) (R1, resolved self-recursion).  Every FNode method that "
+    "can be called on the node alone (about 100: accessors such as bv_width, and the services reached through the "
+    "node - get_type, get_free_variables, get_atoms, simplify, substitute, size, serialize, to_smtlib, str) is "
+    "interpreted on 18 families of operator towers of nesting depth 4 and 8 - linear nests through each operand "
+    "position and DAG towers whose operands are the same node; the deepest interpreted call stack (function frames "
+    "and running generators) is the same on both, however the recursion would be written (R1d).  Every DagWalker "
+    "subclass the package instantiates is interpreted on maximally shared DAGs: no handler runs twice on a node "
+    "within a walk, a persistent memo answers a second request without handler calls, and on towers x' = op(x, x) "
+    "of depth 5 and 10 the interpreted steps and handler calls follow the number of nodes, not of paths (R2).  "
+    "Handlers do not re-enter the traversal of their own walker on a sub-term (R3).  On the real, interpreted "
+    "formula manager the cost of one construction op(x, x) - type check included - is the same over a term of "
+    "nesting depth 6 and depth 30 (R4: construction is linear, the memoising checker is really used).")
 NOT_DECIDED = ["constants of the linear bound", "the tree printers (not claimed by the property)"]
 
 # (class or module, function) -> reason.  Cycles entirely inside this set are accepted.
@@ -166,6 +172,9 @@ def run(ctx):
             ctx.error("R1", "positive control not matched")
         ctx.floor(rs, 300)
 
+    from . import c20_depth
+    c20_depth.run(ctx)
+
     if ctx.want("R2"):
         rs = ctx.rule("R2", "compute-once: traversal interpreted on shared DAGs, handler calls and work grow with nodes, not paths")
         from . import walk_deep as wd
@@ -232,31 +241,6 @@ def run(ctx):
         ctx.floor(rs, 150)
 
     if ctx.want("R4"):
-        rs = ctx.rule("R4", "construction-time type check goes through the environment's memoised checker")
-        sites = class_instantiations(repo, "pysmt.type_checker.SimpleTypeChecker")
-        for m, enc, call in sites:
-            rs.unrec("SimpleTypeChecker instantiated directly in %s.%s" % enc) if enc[0] != "pysmt.environment.Environment" else None
-        env = repo.cls("pysmt.environment.Environment")
-        init = env.own_func("__init__")
-        if any("self.TypeCheckerClass(self)" in norm(s) for s in init.body):
-            rs.ok({"Environment.__init__": "self._stc = self.TypeCheckerClass(self)"})
-        else:
-            rs.unrec("Environment.__init__ does not build the type checker in the recognised way")
-        _, dtc = repo.method(FM, "_do_type_check")
-        if "self.env.stc.get_type" in norm(dtc):
-            rs.ok({"_do_type_check": "self.env.stc.get_type (memoised DagWalker)"})
-        else:
-            ctx.finding(rs, "%s._do_type_check|fresh-checker" % FM,
-                        "the construction-time check does not use the environment's memoised type checker: each "
-                        "construction re-types the whole sub-DAG", method_loc(repo, FM, dtc))
-        stc = repo.cls("pysmt.type_checker.SimpleTypeChecker")
-        gk = stc.own_func("_get_key")
-        init = stc.own_func("__init__")
-        one_shot = init is not None and "invalidate_memoization=True" in norm(init)
-        if not one_shot:
-            rs.ok({"SimpleTypeChecker": "memo kept across calls"})
-        else:
-            ctx.finding(rs, "pysmt.type_checker.SimpleTypeChecker.__init__|one-shot",
-                        "the type checker drops its memo after each call: construction becomes quadratic",
-                        repo.loc(stc.module, init))
-        ctx.floor(rs, 3)
+        rs = ctx.rule("R4", "real manager: the cost of one construction does not grow with the size of its operands")
+        from . import mgr_deep
+        mgr_deep.report(ctx, rs, mgr_deep.cost_results(), "pysmt/formula.py", 2)
